@@ -1,0 +1,63 @@
+//go:build verif
+
+package gcs
+
+// Contracts for the deductive verifier in /verif (comment-only; build tag verif).
+
+//@ func gcs.fastReduction
+//@   requires nHi < 4294967296 && nLo < 4294967296
+//@   ensures int(result) == ((int(v >> 32) * 4294967296 + int(u64(u32(v)))) * (int(nHi) * 4294967296 + int(nLo))) / 18446744073709551616
+//@   modifies nothing
+//@   uses mul_split32(int(v >> 32), int(u64(u32(v))), int(nHi), int(nLo))
+
+//@ func gcs.(*Filter).readFullUint64
+//@   requires b != nil && f.p <= 32
+//@   modifies *b
+
+//@ func gcs.(*Filter).N
+//@   ensures result == f.n
+//@   modifies nothing
+
+//@ func gcs.(*Filter).P
+//@   ensures result == f.p
+//@   modifies nothing
+
+//@ func gcs.(*Filter).Bytes
+//@   ensures err == nil && len(result0) == len(f.filterData) && fresh(result0) && unique(result0)
+//@   ensures forall k :: 0 <= k && k < len(f.filterData) ==> result0[k] == f.filterData[k]
+//@   modifies nothing
+
+//@ func gcs.(*Filter).PBytes
+//@   ensures err == nil && len(result0) == len(f.filterData) + 1 && result0[0] == f.p && fresh(result0)
+//@   ensures forall k :: 0 <= k && k < len(f.filterData) ==> result0[k + 1] == f.filterData[k]
+//@   modifies nothing
+
+//@ func gcs.FromBytes
+//@   ensures P > 32 ==> err != nil && result0 == nil
+//@   ensures P <= 32 ==> err == nil && result0 != nil && fresh(result0) && result0.n == N && result0.p == P && result0.modulusNP == u64(N) * M
+//@   ensures P <= 32 ==> len(result0.filterData) == len(d) && fresh(result0.filterData) && forall k :: 0 <= k && k < len(d) ==> result0.filterData[k] == d[k]
+//@   modifies nothing
+
+//@ func gcs.(*Filter).Match
+//@   requires f.p <= 32
+//@   modifies nothing
+//@   alloc len(f.filterData) + 64
+//@   loop 1 invariant i <= f.n
+//@   loop 1 decreases int(f.n) - int(i)
+
+//@ func gcs.(*Filter).ZipMatchAny
+//@   requires f.p <= 32
+//@   modifies nothing
+//@   alloc len(f.filterData) + len(data) + 64
+//@   loop 1 invariant len(values) == $i && cap(values) == len(data) && fresh(values)
+//@   loop 2 invariant i <= f.n && 0 <= queryIndex && queryIndex <= querySize && querySize == len(values)
+//@   loop 3 invariant 0 <= queryIndex && queryIndex <= querySize && querySize == len(values) && i < f.n
+
+//@ func gcs.(*Filter).HashMatchAny
+//@   requires f.p <= 32
+//@   modifies nothing
+//@   alloc 8 * len(f.filterData) + len(data) + 64
+
+//@ func gcs.(*Filter).MatchAny
+//@   requires f.p <= 32
+//@   modifies nothing
